@@ -44,6 +44,7 @@ POINTS = {
     "art.before_tmp": 54, "art.tmp_written": 55, "art.renamed": 56,
     "cache.rebuild.created": 61, "cache.rebuild.body": 62, "cache.rebuild.nl": 63, "cache.rebuild.flushed": 64,
     "cache.side.indexed": 203, "cache.mr.done": 205,
+    "snap.created": 71, "snap.written": 72, "snap.flushed": 73,
 }
 LOCKED = ["append_message", "append_run_spawned", "append_context_selection_decided", "append_context_compiled",
           "append_provider_cursor_updated", "append_compaction_checkpoint_created",
@@ -199,6 +200,11 @@ def extract(repo):
     else:
         notes.append("EventLog::append not found")
 
+    # ---- write_snapshot (not in the model: the list is compared with a literal): File::create 140, the ONE write_all of
+    #      the whole payload 141, flush 142
+    body = fn_body(log, "write_snapshot")
+    g["snapshot"] = flat(tokens(body, [point_pat({71, 72, 73}), (r"File::create\(", 140), (r"\.write_all\(", 141), (r"\.flush\(\)", 142)])) if body is not None else []
+
     # ---- append_best_effort: full sidecar part, then the derived caches
     g["side_append"], g["derived_order"] = [], []
     body = fn_body(cache, "append_best_effort")
@@ -333,6 +339,9 @@ def main():
     L.append(f"Definition gen_derived_order : list N := {coq_list(g['derived_order'])}.")
     L.append(f"Definition gen_rebuild : list N := {coq_list(g['rebuild'])}.")
     L.append(f"Definition gen_save_index : list N := {coq_list(g['save_index'])}.")
+    L.append("(* rip_log::write_snapshot: create (truncate), ONE write of the whole JSON array, flush - so a crash leaves no file,")
+    L.append("   an empty file or the complete snapshot; an empty or cut file does not parse and the readers fall back to the log *)")
+    L.append(f"Definition gen_snapshot : list N := {coq_list(g['snapshot'])}.")
     L.append(f"Definition gen_write_blob : list N := {coq_list(g['write_blob'])}.")
     L.append(f"Definition gen_writers_use_atomic : bool := {coq_bool(g['writers_use_atomic'])}.")
     L.append("(* save_index / write_blob_atomic call nothing but the known effects and pure helpers *)")
@@ -370,6 +379,7 @@ def main():
     L.append("  && lN_eqb gen_rebuild (skel (rebuild 0 [fr0]))")
     L.append("  && lN_eqb gen_save_index (skel save_index)")
     L.append("  && lN_eqb gen_write_blob (skel (write_blob 0))")
+    L.append("  && lN_eqb gen_snapshot [140; 71; 141; 72; 142; 73]")
     L.append("  && gen_writers_use_atomic && gen_artifact_before_frame && gen_leaf_calls_ok")
     L.append("  && Nat.eqb (length gen_locked) 11")
     L.append("  && forallb (fun l => lN_eqb l locked_spec && lN_eqb (modelled l) (skel (locked_append fixed st_warm 0 0 10 None))) gen_locked")
